@@ -5,7 +5,7 @@ the model's) + oracles on the real code: true objective at return <= at start, n
 deterministic budget prefixes (max_iter 0..6, max_epochs 1..20 around the extrapolation period)."""
 from .solver_common import run_parallel, run_bbox
 
-LEAN_MODULES = ["Skglm.Properties.C03", "Skglm.Properties.BCD", "Skglm.Properties.ProxNewton", "Skglm.Properties.ProxNewtonDir", "Skglm.Properties.GroupProxNewton", "Skglm.Properties.MultiTask", "Skglm.Properties.GramCD"]
+LEAN_MODULES = ["Skglm.Properties.C03", "Skglm.Properties.BCD", "Skglm.Properties.ProxNewton", "Skglm.Properties.ProxNewtonDir", "Skglm.Properties.GroupProxNewton", "Skglm.Properties.Anderson", "Skglm.Properties.MultiTask", "Skglm.Properties.GramCD"]
 
 
 def run(ctx, rep):
